@@ -347,13 +347,10 @@ def _run(args):
     mod = importlib.import_module(f"sa.checks.{prop.lower()}")
 
     def findings(project):
-        rep = Rm.Report(prop=prop, tier="quick")
+        from sa.runner import run_property
+
         try:
-            try:
-                mod.check(project, rep)
-            except Rm.Abort:
-                pass
-            rep.check_nonvacuous()
+            rep = run_property(prop, project, "quick")
         except AnalysisError as e:
             return "error", [str(e)]
         except Exception as e:
